@@ -130,7 +130,7 @@ def load_known(prop: str) -> List[Dict[str, Any]]:
     if os.path.exists(p):
         for line in open(p):
             line = line.strip()
-            if not line or line.startswith("#"):
+            if not line or line.startswith("#") or line.startswith("fixed:"):
                 continue
             d = json.loads(line)
             if d.get("property") == prop and d.get("status", "known") == "known":
